@@ -38,7 +38,7 @@ func runC03(g *Grammar, in string, memoRules []bool, noMemo bool, probe *Probe, 
 	b := Build(g, BuildOpts{MemoRules: memoRules, NoMemo: noMemo, Probe: probe})
 	ctx, f := NewCtx(in)
 	if preLen > 0 {
-		f = text.NewFile("f", []byte(in))
+		f = newFileOwned("f", []byte(in))
 		fs := parsley.NewFileSet(text.NewFile("pre", []byte(strings.Repeat("x", preLen))), f)
 		ctx = parsley.NewContext(fs, text.NewReader(f))
 	}
@@ -142,6 +142,9 @@ func init() {
 		NewCase: func() interface{} { return &C03Case{} },
 		Gen: func(t *rapid.T) interface{} {
 			o := GenOpts{MaxNT: 3, MaxDepth: 3, Alphabet: "ab", NonMono: true, MaxInput: 6, ExtraMemo: 3, Names: true, LRFree: true, Share: true, MemoLeaves: true, Suppress: rapid.IntRange(0, 2).Draw(t, "suppress") == 0}
+			// trimming with operands that return fresh nodes (see genRefTrim): RightTrim must then leave
+			// every memoized node alone, and memoized and plain grammar agree
+			o.RefTrims = rapid.IntRange(0, 3).Draw(t, "reftrims") == 0
 			if thorough() {
 				o.MaxNT, o.MaxInput = 4, 8
 			}
